@@ -24,6 +24,7 @@ int  uk_choice(int n, const char *name){ long long v = next_val(); (void)name; i
 void uk_assume(int c){ if (!c){ fprintf(stderr, "UK_ASSUME_FALSE\n"); exit(0); } }
 void uk_assert(int c, const char *msg){ if (!c) fail("ASSERT_FAIL", msg); }
 void uk_cover(const char *label){ (void)label; }
+void uk_note_text(const char *label, const void *p, long n, int es){ long i; fprintf(stderr, "text %s=\"", label); for (i = 0; i < n; i++){ unsigned long c = es == 1 ? ((const unsigned char *)p)[i] : ((const uint32_t *)p)[i]; if (c >= 32 && c < 127) fputc((int)c, stderr); else fprintf(stderr, "\\x%02lx", c); } fprintf(stderr, "\"\n"); }
 void uk_note(const char *label, long v){ fprintf(stderr, "note %s=%ld\n", label, v); }
 
 #define MAXBLK 4096
